@@ -225,7 +225,12 @@ def run_case(ctx, g, rng):
     for name in ("t.tsv", "t.tsv.gz"):
         evaluated("ref:triples-file")
         path = ctx.tmp / name
-        wo = call(write_triples, triples, path if rng.random() < 0.5 else str(path))
+        # "triples: Iterable[Triple]": a list, a tuple or a one-shot iterable
+        shape = rng.choice(["list", "list", "tuple", "generator", "iterator"])
+        S.counters[f"wl:triples-handed-over-as:{shape}"] += 1
+        given = {"list": lambda: list(triples), "tuple": lambda: tuple(triples), "generator": lambda: (t for t in triples),
+                 "iterator": lambda: iter(list(triples))}[shape]()
+        wo = call(write_triples, given, path if rng.random() < 0.5 else str(path))
         back = call(read_triples, path) if wo[0] == "ret" else wo
         want = [(t.subject.pair, t.predicate.pair, t.object.pair) for t in triples]
         got = [(t.subject.pair, t.predicate.pair, t.object.pair) for t in back[1]] if back[0] == "ret" else back
